@@ -1,6 +1,7 @@
 import Flurry.Proto.BinT
 import Flurry.Lemmas.LinSearch
 import Flurry.Lemmas.BinTLin
+import Flurry.Gen.Atomics
 /-! # C01 (tree-bin level): the ORIGINAL removal order of `Proto/BinT` (`stepOld`) is **not** linearizable — a machine-checked counterexample (finding F8)
 
 The intended theorem
@@ -271,5 +272,28 @@ theorem bint_linearizable_quiescent {n : Nat} {s : State} (hr : Reachable n s) (
   have := bint_linearizable_unlocked hr (writer_false_of_quiescent hr hq) k
   rw [callsOnExt_quiescent hq] at this
   exact this
+
+/-! ## the tie to the source: the order of the model's steps is the order of the code
+
+`Proto/BinT.step` removes a node by `lock_root`, list unlink, tree removal, `unlock_root`, and
+inserts a new key by list prepend, tree link, and only then (if it has to rebalance) `lock_root`.
+These orders are regenerated from `src/node.rs` on every run (`Gen/Atomics.lean`: `lock_root` /
+`unlock_root` and the runs of stores to list cells `first`/`next`/`prev` and to tree links
+`left`/`right`/`root`/`parent`/`red`, in source order). With the original order of
+`remove_tree_node` (`["store:list", "lock_root", "store:tree", "unlock_root"]`, finding F8) the first
+theorem is false. -/
+section Tie
+open Flurry.Gen
+
+theorem remove_locks_before_unlink :
+    removeTreeNodeOrder = ["lock_root", "store:list", "store:tree", "unlock_root"] := by decide
+
+/-- (the leading `store:tree`, `store:list` is the empty-bin case: `root` and `first` of a bin
+that no reader can have reached through the tree yet) -/
+theorem insert_prepends_then_links_then_locks :
+    findOrPutTreeValOrder = ["store:tree", "store:list", "store:tree", "lock_root", "store:tree", "unlock_root"] := by
+  decide
+
+end Tie
 
 end Flurry.Proto.BinT
